@@ -58,11 +58,12 @@ class Sym:
 class SymC:
     """Complex number as a pair of real-valued values."""
 
-    __slots__ = ("re", "im")
+    __slots__ = ("re", "im", "arg")
 
-    def __init__(self, re, im):
+    def __init__(self, re, im, arg=None):
         self.re = re
         self.im = im
+        self.arg = arg  # phase argument if this value is exp(i*arg) (unit modulus), else None
 
     def __repr__(self):
         return f"SymC({self.re}, {self.im})"
@@ -273,6 +274,10 @@ def v_sub(a, b):
 
 
 def v_mul(a, b):
+    if isinstance(a, SymC) and concrete(b) and not isinstance(b, (tuple, list)) and norm_number(b) == 1:
+        return a
+    if isinstance(b, SymC) and concrete(a) and not isinstance(a, (tuple, list)) and norm_number(a) == 1:
+        return b
     if isinstance(a, SymC) or isinstance(b, SymC):
         a, b = as_complex(a), as_complex(b)
         return SymC(v_sub(v_mul(a.re, b.re), v_mul(a.im, b.im)), v_add(v_mul(a.re, b.im), v_mul(a.im, b.re)))
